@@ -83,7 +83,7 @@ def _enclosing_lists(ctx, rep, cl):
                 if post == cv or vname in (f.params[1], f.params[2]):
                     continue
                 want = ("sub", cv, ("slice", ln(lv0), None, None)) if is_head else ("sub", cv, ("slice", None, ("unop", "-", ln(lv0)), None))
-                if post[0] == "sub":
+                if True:
                     rep.ob(cl + ".enclosing-strip", "%s:%s" % (f.name, "head" if is_head else "tail"), post == want, "after moving an enclosing text the value becomes %s; expected exactly that text removed (%s)" % (show(post), show(want)), W(f, li.node), key="%s.enclosing-strip|%s" % (cl, "head" if is_head else "tail"))
         for bp in li.body_paths:
             t = bp.truth(("call", ("attr", ("carried", [n for n in li.carried if n not in (f.params[1], f.params[2])][0] if [n for n in li.carried if n not in (f.params[1], f.params[2])] else "val", li.uid), "startswith" if is_head else "endswith"), (lv0,), ()))
@@ -141,6 +141,9 @@ def c07(ctx, rep):
            W(r.fn), witness="enable secret level 15 5 $1$wtHI$0rN7R8PKwC30AsCGA77vy.", key="C07.search-stops-only-after-replacement|" + ";".join(sorted(out.get("identity_conds") or [])))
     from . import refpatterns
     refpatterns.check(ctx, rep, "C07", prefix, groups, parts)
+    # every line goes through the secret stage and only the stage's result is written
+    from .checks_pipe import line_loop_rules
+    line_loop_rules(ctx, rep, "C07")
 
 
 def _one_lookup_per_run(ctx, rep, cl):
@@ -186,6 +189,43 @@ def c08(ctx, rep):
     _one_lookup_per_run(ctx, rep, "C08")
     _enclosing_lists(ctx, rep, "C08")
     secret_rmi.check_rmi(ctx, rep, "C08")
+    # "a $9$ string and any other spelling of the same plaintext are the same secret" rests on the decoder: C18's decoder clauses re-run
+    from .report import Report
+    from .checks_misc import c18
+    sub = Report("C18", quiet=True)
+    c18(ctx, sub, with_k3=False)
+    for o in sub.obligations:
+        cn = o["clause"].split(".", 1)[1]
+        if cn in ("decode-prelude", "decode-row", "decode-chain", "valid-alphabet", "valid-min-length", "validated-before-tables", "refusal", "gap", "gap-decode-value", "gap-decode-guard", "alphabet-distinct", "alpha-num-inverse", "extra-total", "weights-mixed-radix", "weights-cover-bytes", "encode-greedy", "encode-ring", "encode-row", "encode-chain", "encode-prefix", "encode-all-chars"):
+            rep.ob("C08.codec." + cn, o["construct"], o["ok"], o["detail"], o["where"], o.get("witness"), key="C08.codec.%s|%s" % (cn, o["construct"]))
+
+
+JUNIPER_FAMILY = ["QzF3n6/9CAtpu0O", "B1IREhcSyrleKvMW8LXx", "7N-dVbwsY2g4oaJZGUDj", "iHkq.mPf5T"]
+JUNIPER_ENCODING = [[1, 4, 32], [1, 16, 32], [1, 8, 32], [1, 64], [1, 32], [1, 4, 16, 128], [1, 32, 64]]
+
+
+def _juniper_standard_tables(ctx, rep, cl):
+    """A replacement must be decryptable by an INDEPENDENT $9$ decoder: the codec's tables must be the
+    published ones (Crypt::Juniper): family boundaries decide the number of filler characters per salt."""
+    JS = "netconan.utils.juniper_secrets"
+    loc = "netconan/utils/juniper_secrets.py"
+    for name, want in (("FAMILY", JUNIPER_FAMILY), ("ENCODING", JUNIPER_ENCODING), ("MAGIC", "$9$")):
+        try:
+            got = ctx.folder.module_const(JS, name)
+        except Unfoldable as e:
+            got = "<%s>" % e
+        if isinstance(got, tuple):
+            got = list(got)
+        if isinstance(got, list):
+            got = [list(x) if isinstance(x, tuple) else x for x in got]
+        rep.ob(cl + ".juniper-tables-standard", name, got == want, "%s folds to %r; the published Juniper $9$ table is %r (an internally consistent but different table yields strings no other decoder accepts)" % (name, got, want), loc,
+               key="%s.juniper-tables-standard|%s" % (cl, name))
+    try:
+        extra = ctx.folder.module_const(JS, "EXTRA")
+        want_extra = {c: 3 - i for i, fam in enumerate(JUNIPER_FAMILY) for c in fam}
+        rep.ob(cl + ".juniper-tables-standard", "EXTRA", extra == want_extra, "EXTRA (filler count per salt character) equals 3 - family index over the published families", loc, key="%s.juniper-tables-standard|EXTRA" % cl)
+    except Unfoldable:
+        pass
 
 
 def c09(ctx, rep):
@@ -199,6 +239,7 @@ def c09(ctx, rep):
     rep.trust(*TRUST_SECRET)
     rep.assume("passlib's outputs decode with independent decoders (third-party)", "$9$ decodability is C18")
     classifier.check(ctx, rep, "C09")
+    _juniper_standard_tables(ctx, rep, "C09")
     secret_flow.check_anonymize_value(ctx, rep, "C09")
     secret_struct.check_table(ctx, rep, "C09", want_catchalls=False)
     r, out = secret_rmi.check_rmi(ctx, rep, "C09")
@@ -223,12 +264,26 @@ def reserved_flow(ctx, rep, cl):
     fp = A.paths(f_fa)
     rep.analysed(f_fa)
 
+    def as_given(t):
+            """rw itself, or set()/list()/frozenset() of it: the words are not transformed"""
+            t = strip_mut(t)
+            if t == rw:
+                return True
+            if M.is_call(t) and t[1][0] == "builtin" and t[1][1] in ("set", "list", "tuple", "frozenset") and len(t[2]) == 1:
+                return as_given(t[2][0])
+            if t[0] == "binop" and t[1] in ("|", "+"):
+                return as_given(t[2]) or as_given(t[3])
+            if M.is_call(t) and t[1][0] == "attr" and t[1][2] == "union":
+                return any(as_given(a) for a in t[2]) or as_given(t[1][1])
+            if t[0] == "comp" and len(t[4]) == 1 and t[3] == t[4][0][0] and not t[4][0][2]:
+                return as_given(t[4][0][1])
+            return False
+
     def includes_user(term, path, upto):
-        """Does `term` (a reserved-set expression) include the user's words on this path?"""
+        """Does `term` (a reserved-set expression) include the user's words, AS GIVEN, on this path?"""
         if term is None:
             return False
-        leaves = set(subterms(term))
-        if rw in leaves:
+        if as_given(term):
             return True
         # a field: look at its last store before `upto`
         if term[0] == "attr" and term[1] == SELF:
@@ -237,16 +292,16 @@ def reserved_flow(ctx, rep, cl):
             for i, e in enumerate(path.effects[:upto]):
                 if e.kind == "store_attr" and e.a == SELF and e.b == term[2]:
                     last, last_i = e.c, i
-            if last is not None and rw in set(subterms(last)):
+            if last is not None and as_given(last):
                 return True
             # mutated in place after the last (re)binding of the field
             for e in path.effects[last_i + 1:upto]:
-                if e.kind == "call" and e.a[1][0] == "attr" and e.a[1][1] == term and e.a[1][2] in ("update", "__ior__") and rw in set(subterms(e.a)):
+                if e.kind == "call" and e.a[1][0] == "attr" and e.a[1][1] == term and e.a[1][2] in ("update", "__ior__") and any(as_given(a) for a in e.a[2]):
                     return True
         # the module-level default set: updated in place before
         if term[0] == "global" and term[2] == "default_reserved_words":
             for e in path.effects[:upto]:
-                if e.kind == "call" and e.a[1][0] == "attr" and e.a[1][1][0] == "global" and e.a[1][1][2] == "default_reserved_words" and e.a[1][2] == "update" and rw in set(subterms(e.a)):
+                if e.kind == "call" and e.a[1][0] == "attr" and e.a[1][1][0] == "global" and e.a[1][1][2] == "default_reserved_words" and e.a[1][2] == "update" and any(as_given(a) for a in e.a[2]):
                     return True
         return False
 
@@ -279,6 +334,10 @@ def reserved_flow(ctx, rep, cl):
             rep.ob(cl + ".reserved-reach-secret-stage", "FileAnonymizer.__init__", ok,
                    "the secret stage uses reserved set %s; on path [%s] the user's reserved words are not merged into it" % (show(secret_term), path.describe()[:140]), W(f_fa),
                    key=cl + ".reserved-reach-secret-stage|FileAnonymizer.__init__")
+    swallowed = [pth.describe()[-120:] for pth in fp.paths if pth.feasible() and pth.kind != "raise" and any(t[0] == "except" for t, pol in pth.atoms())]
+    rep.ob(cl + ".stage-failure-not-swallowed", "FileAnonymizer.__init__", not swallowed,
+           "the constructor catches an exception and carries on (%s): a stage whose construction failed (e.g. an invalid AS number) would be silently disabled and its items left in the output" % swallowed[:2], W(f_fa),
+           key=cl + ".stage-failure-not-swallowed|FileAnonymizer.__init__")
     rep.ob(cl + ".reserved-paths", "FileAnonymizer.__init__", n_word >= 1 and n_sec >= 1, "constructor paths with user reserved words examined: word stage %d, secret stage %d" % (n_word, n_sec), W(f_fa), nontrivial=False)
     # _anonymize_value returns the raw value for reserved words (checked by the flow rules) and receives that set
     return secret_term
@@ -344,6 +403,15 @@ def c10(ctx, rep):
         if ok:
             a = strip_mut(rxs.c[2][0])
             src_ok = _derives_from_all(a, sw)
+        if ok:
+            a0 = strip_mut(rxs.c[2][0])
+            canon_ok = True
+            for x in subterms(a0):
+                if x[0] == "comp" and len(x[4]) == 1 and _derives_from_all(x[4][0][1], sw):
+                    tgt = x[4][0][0]
+                    canon_ok = x[3] == tgt or x[3] == ("call", ("attr", tgt, "lower"), (), ())
+            rep.ob("C10.words-canonicalised-by-lower", init.name, canon_ok, "listed words are canonicalised by %s; only w.lower() is compatible with IGNORECASE matching (casefold() turns 'ß' into 'ss', which the pattern then no longer matches in the text)" % show(a0)[:120], w,
+                   key="C10.words-canonicalised-by-lower|SensitiveWordAnonymizer.__init__")
         rep.ob("C10.regex-from-all-words", init.name, ok and src_ok, "self.sens_regex = %s; expected the pattern of ALL listed words" % (show(rxs.c) if rxs else None), w, key="C10.regex-from-all-words|SensitiveWordAnonymizer.__init__")
         memo = stores.get("sens_word_replacements")
         rep.ob("C10.memo-per-instance", init.name, memo is not None and memo.c == ("dict", ()), "self.sens_word_replacements = %s; expected a fresh dict per anonymizer (the pseudonym depends on the salt)" % (show(memo.c) if memo else None), w, key="C10.memo-per-instance|SensitiveWordAnonymizer")
